@@ -2,6 +2,8 @@
 
 proof gate      fam/bld/coq/Properties/C17.v (write_items / split / workspace permutation invariance, nested protobuf
                 messages, inventory of unordered-iteration sites regenerated from the Rust sources)
+                Builder::dedup (harness flag --dedup): a corpus with structurally equal items of one name in 12+ modules and in two files
+                sharing one namespace, under thread counts 1, 2, 16 (few workers = many module groups per rayon split)
 search/oracle   the REAL pilota-build (harness binary, path-depends on the repository) in independent child processes
                 (fresh std RandomState / ahash / DashMap seeds per process -- confirmed by the `seeds` probe)
                 x RAYON_NUM_THREADS in {1,2,3,5,8,16} x {single-file, split, workspace} on thrift and protobuf corpora
@@ -27,6 +29,11 @@ def corpora(rng, tier):
     for i in range(n_th):
         doc = bldgen.c17_thrift_corpus(random.Random(rng.randrange(1 << 30)), n_files=rng.choice([6, 8, 10]), items=rng.choice([6, 8]))
         out.append(dict(name="thrift%d" % i, kind="thrift", files=doc.texts(), entries=["main.thrift", "f1.thrift"]))
+    # Builder::dedup: the scratch map of Codegen::duplicate is keyed by the bare item name and valid per module only
+    for i in range(1 if tier == "quick" else 3):
+        files, entries, names = bldgen.c17_dedup_corpus(random.Random(rng.randrange(1 << 30)), n_modules=rng.choice([8, 10, 12]))
+        out.append(dict(name="dedup%d" % i, kind="thrift", files=files, entries=entries, dedup=names, threads=[1, 2, 16, 1, 2, 2, 1, 16],
+                        layout=False))
     for i in range(n_pb):
         files = bldgen.c17_proto_corpus(random.Random(rng.randrange(1 << 30)), n_top=rng.choice([4, 6]), n_nested=rng.choice([4, 6]))
         out.append(dict(name="proto%d" % i, kind="pb", files=files, entries=["p0.proto", "p1.proto"]))
@@ -57,6 +64,8 @@ def run_builder(hb, c, idl_dir, mode, threads, tag, timeout=120):
         target = os.path.join(out, "gen.rs")
         entries = c["entries"][:1]
     cmd = [hb, "gen", c["kind"], mode, target, "--no-ignore-unused", "--dump", dump]
+    if c.get("dedup"):
+        cmd += ["--dedup", ",".join(c["dedup"])]
     if c["kind"] == "pb":
         cmd += ["--include", idl_dir]
     cmd += ["--"] + [os.path.join(idl_dir, e) for e in entries]
@@ -239,7 +248,7 @@ def run(chk, replay=None):
         "modelled, not verified: rayon (each for_each body runs exactly once), itertools into_group_map_by, DashMap entry semantics, rustfmt (a function of its input file)",
         "item rendering is abstract (Section variable render): its determinism is only observed through the file hashes"]
     chk.cov["rule"] = ("runs: corpus x mode {single, split, workspace} x independent builder processes with RAYON_NUM_THREADS "
-                       "cycling through 1,2,3,5,8,16; a case = one (corpus, mode, process); non-trivial = the run emitted "
+                       "cycling through 1,2,3,5,8,16 (dedup corpora: Builder::dedup on, threads 1,2,16); a case = one (corpus, mode, process); non-trivial = the run emitted "
                        ">= 2 modules; layout cases = one per emitted gen.rs (model prediction vs scrape)")
     rng = random.Random(chk.seed)
     os.makedirs(WORK, exist_ok=True)
@@ -263,7 +272,8 @@ def run(chk, replay=None):
         idl = write_corpus(c)
         for mode in modes:
             for k in range(procs):
-                jobs.append((c, idl, mode, THREADS[k % len(THREADS)], "p%d" % k))
+                th = c.get("threads") or THREADS
+                jobs.append((c, idl, mode, th[k % len(th)], "p%d" % k))
     with ThreadPoolExecutor(max_workers=min(8, core.NPROC)) as ex:
         results = list(ex.map(lambda j: run_builder(hb, *j), jobs))
     by = {}
@@ -304,7 +314,8 @@ def run(chk, replay=None):
                                      differing_files=diff[:20], file=f0, content_a=text(ref), content_b=text(r))))
         dist["modules_per_run"].append(dict(corpus=cname, mode=mode, files=len(ref["hashes"])))
         # layout correspondence on the first and the last run of the group
-        if runner and ref["status"] == "OK":
+        # (not for the dedup corpora: the model's layout does not drop deduplicated items)
+        if runner and ref["status"] == "OK" and lst[0][0][0].get("layout", True):
             for j, r in (lst[0], lst[-1]):
                 if r["status"] == "OK":
                     for pb in check_layout(chk, runner, hb, r, mode, cname):
